@@ -103,6 +103,13 @@ func (e *Env) parseType(s string) SType {
 	case "cond":
 		return SType{K: KCond}
 	}
+	if strings.HasPrefix(s, "[]") {
+		switch s[2:] {
+		case "int64":
+			return SType{K: KSlice, Elem: types.Typ[types.Int64]}
+		}
+		e.fail("unknown slice type %s", s)
+	}
 	if strings.HasPrefix(s, "*") {
 		name := s[1:]
 		if name == "big.Int" {
@@ -261,6 +268,7 @@ func (e *Env) binary(x *EBin) SVal {
 		return bv(Eq(e.boolean(x.X), e.boolean(x.Y)))
 	}
 	a, b := e.eval(x.X), e.eval(x.Y)
+	a, b = coerceCond(x.X, a, b), coerceCond(x.Y, b, a)
 	switch x.Op {
 	case "==", "!=":
 		if a.T.Sort != b.T.Sort {
@@ -390,11 +398,24 @@ func (e *Env) call(x *ECall) SVal {
 		return iv(app(SInt, "maxi", e.integer(args[0]), e.integer(args[1])))
 	case "tdiv", "tmod", "div", "mod":
 		need(2)
-		return iv(app(SInt, x.Fn, e.integer(args[0]), e.integer(args[1])))
+		a, b := e.integer(args[0]), e.integer(args[1])
+		if !isLitTerm(b) {
+			a, b = e.define("dvd", a), e.define("dvs", b)
+		}
+		switch x.Fn {
+		case "tdiv":
+			return iv(TDiv(a, b))
+		case "tmod":
+			return iv(TMod(a, b))
+		case "div":
+			return iv(EDiv(a, b))
+		}
+		return iv(EMod(a, b))
 	case "ite":
 		need(3)
 		c := e.boolean(args[0])
 		a, b := e.eval(args[1]), e.eval(args[2])
+		a, b = coerceCond(args[1], a, b), coerceCond(args[2], b, a)
 		if a.T.Sort != b.T.Sort {
 			e.fail("ite branches differ in sort")
 		}
@@ -491,6 +512,7 @@ func (e *Env) call(x *ECall) SVal {
 		}
 		if want.K == KRef {
 			v.Ty = want
+		} else if want.K == KSlice && v.Ty.K == KSlice {
 		} else if want.K != v.Ty.K && !(want.K == KInt && v.Ty.K == KRef) {
 			e.fail("argument %s of %s: kind mismatch", p.Name, x.Fn)
 		}
@@ -509,8 +531,21 @@ func (e *Env) call(x *ECall) SVal {
 	return r
 }
 
+// coerceCond turns an integer literal into a Condition literal when the other operand is a Condition.
+func coerceCond(x Expr, v SVal, other SVal) SVal {
+	if lit, ok := x.(*ELit); ok && other.Ty.K == KCond && v.Ty.K == KInt {
+		n, _ := new(big.Int).SetString(lit.V, 0)
+		return cv(BVLit(uint32(n.Uint64())))
+	}
+	return v
+}
+
 func (e *Env) cond(x Expr) Term {
 	v := e.eval(x)
+	if lit, ok := x.(*ELit); ok && v.Ty.K == KInt {
+		n, _ := new(big.Int).SetString(lit.V, 0)
+		return BVLit(uint32(n.Uint64()))
+	}
 	if v.Ty.K != KCond {
 		e.fail("expected Condition in %s", exprString(x))
 	}
